@@ -552,6 +552,14 @@ func (fv *FV) specField(env *Env, x *SField) Term {
 			return Term{S: "(soff " + v.S + ")", Sort: sInt}
 		}
 	}
+	if v.Sort == sStr {
+		switch x.Name {
+		case "base":
+			return Term{S: "(strbase " + v.S + ")", Sort: sInt}
+		case "off":
+			return Term{S: "(stroff " + v.S + ")", Sort: sInt}
+		}
+	}
 	return fv.fieldTerm(env.st, v, x.Name)
 }
 
@@ -921,6 +929,25 @@ func (fv *FV) specCall(env *Env, c *SCall) Term {
 		need(2)
 		k := fv.spec(env, c.Args[1])
 		return Term{S: sel(fv.heapGet(env.st, fv.callsComp("ret", "")), k.S), Sort: sBool}
+	case "cmp3":
+		// three-way comparison as cmp.Compare defines it: exact on integers, an uninterpreted function with the
+		// range {-1,0,1} on strings
+		need(2)
+		a := args()
+		x, y := fv.coerce(a[0], a[1])
+		if x.Sort == sInt {
+			return Term{S: ite(app("<", x.S, y.S), "(- 1)", ite(app(">", x.S, y.S), "1", "0")), Sort: sInt, T: types.Typ[types.Int]}
+		}
+		if x.Sort == sStr {
+			fv.declare("strcmp3", "(declare-fun strcmp3 (Str Str) Int)")
+			if !fv.declared["strcmp3ax"] {
+				fv.declared["strcmp3ax"] = true
+				fv.axioms = append(fv.axioms, "(forall ((a Str) (b Str)) (! (and (<= (- 1) (strcmp3 a b)) (<= (strcmp3 a b) 1)) :pattern ((strcmp3 a b))))")
+				fv.assumptions["cmp.Compare on strings is an uninterpreted three-way comparison with range {-1,0,1}"] = true
+			}
+			return Term{S: app("strcmp3", x.S, y.S), Sort: sInt, T: types.Typ[types.Int]}
+		}
+		fv.sfail("cmp3 on sort %s", x.Sort)
 	case "oldelem":
 		// oldelem(s, i): element i of slice s in the old heap; s is evaluated in the old state, i in the current one
 		need(2)
